@@ -20,8 +20,16 @@
 import Corerad.Spec.C17
 import Corerad.Lemmas.ListUtil
 import Corerad.Model.Config
+import Corerad.Gen.Main
 
 namespace Corerad.Props.C17
+
+/-- How main wires observability: one pedantic Prometheus registry feeds both the metrics and the
+    /metrics handler (so a duplicate sample makes the gather fail, as modelled), and the metrics
+    collector and the debug API read the same `State` and the same parsed interfaces as the
+    advertisers. -/
+theorem gen_main_wiring :
+    Gen.Main.pedanticRegistry = true ∧ Gen.Main.sameStateAndConfig = true := by decide
 
 open Corerad Corerad.Model Corerad.Model.Observe
 
